@@ -60,6 +60,7 @@ class FileScanHelper:
         self.__show_stack_trace = show_stack_trace
         self.__handle_error = handle_error
         self.__continue_on_error = False
+        self.__fix_temporary_files: List[str] = []
 
     # pylint: enable=too-many-arguments
 
@@ -235,6 +236,8 @@ class FileScanHelper:
             except Exception:
                 POGGER.info("Ending file to fix '$' with exception.", next_file_name)
                 raise
+            finally:
+                self.__remove_fix_temporary_files()
         except (BadPluginError, BadPluginFixError) as this_exception:
             self.__handle_scan_error(next_file, this_exception, allow_shortcut=True)
         except BadTokenizationError as this_exception:
@@ -246,6 +249,16 @@ class FileScanHelper:
         return did_fix_file, did_succeed
 
     # pylint: enable=too-many-arguments
+
+    def __remove_fix_temporary_files(self) -> None:
+        """
+        Normally, each fix pass removes its own temporary files.  If a pass is cut
+        short by an exception, make sure that nothing is left behind.
+        """
+        for next_temporary_file in self.__fix_temporary_files:
+            if os.path.exists(next_temporary_file):
+                os.remove(next_temporary_file)
+        self.__fix_temporary_files.clear()
 
     def __handle_scan_error(
         self, next_file: str, this_exception: Exception, allow_shortcut: bool = False
@@ -516,6 +529,7 @@ class FileScanHelper:
         source_provider = FileSourceProvider(next_file)
         with tempfile.NamedTemporaryFile() as temp_output:
             temporary_file_name = temp_output.name
+        self.__fix_temporary_files.append(temporary_file_name)
         with open(temporary_file_name, "wt", encoding="utf-8") as source_file:
             POGGER.info("Scanning before line-by-line fixes.")
             fix_context = self.__plugins.starting_new_file(
@@ -783,6 +797,7 @@ class FileScanHelper:
             print(f"MARKDOWN:{ParserHelper.make_value_visible(markdown_from_tokens)}")
         with tempfile.NamedTemporaryFile() as temp_output:
             temporary_file_name = temp_output.name
+        self.__fix_temporary_files.append(temporary_file_name)
         with open(temporary_file_name, "wt", encoding="utf-8") as source_file:
             source_file.write(markdown_from_tokens)
             next_file = temporary_file_name
